@@ -238,6 +238,45 @@ def run(sc, ctx):
             out['evals'] += 2
             if e1 or e2 or raw_state(l1) != raw_state(b) or raw_state(l2) != raw_state(b):
                 bad('routes', 'load-route', 'Atoms.load(path) / Atoms.load(file, "lmpdat") do not give the same object as load_lmpdat: %r' % ((e1 or e2 or ('', ''))[0],))
+    if sc['co'] == 0:
+        # histories: the object was saved (and read) before; what is written next must state its content *now*
+        def states_now(obj, what):
+            t, e = call(T, obj, style); out['evals'] += 1; out['compared'] += 1
+            if e:
+                bad('write', 'history-exc:' + exc_sig(e), '%s: save_lmpdat raised %r' % (what, e[0])); return
+            for x in states_content(obj, t, style)[:2]:
+                bad('file-states-structure', 'history:' + x.split(',')[0].split(' says')[0][:30], '%s: %s' % (what, x), text=t)
+        h = a.copy()
+        call(T, h, style); call(lambda: list(h.elements))
+        h.atom_type_labels = ['L%d_%s' % (i, str(x)[:1]) for i, x in enumerate(h.atom_type_labels)]
+        states_now(h, 'saved, then the atom type labels were replaced, saved again')
+        if len(h.bond_type_coeffs):
+            h.bond_type_coeffs = np.array(['harmonic %d.5 1.%d # again' % (i + 2, i) for i in range(len(h.bond_type_coeffs))])
+        h.positions[:] = np.asarray(h.positions) + 0.125; h.charges[:] = np.asarray(h.charges) * 2 - 0.0625
+        states_now(h, 'saved, then coefficients, positions and charges were edited in place, saved again')
+        if h.cell is not None:
+            h.cell = np.asarray(h.cell, float) * np.array([[2.0], [1.0], [1.0]])
+            states_now(h, 'saved, then the cell was doubled along a, saved again')
+            r, e = call(h.replicate, (1, 2, 1))
+            if not e:
+                states_now(r, 'saved, replicated 1x2x1, the replica saved')
+        # a load with a loose mass tolerance must not leak into a later load with the default one
+        if sc['lab'] == 0 and sc['tables'] == 0:
+            t_off = '\n'.join(l for l in T1.split('\n'))
+            hdr, box, secs = RL.read(T1)
+            lines = T1.split('\n'); i0 = lines.index('Masses') + 2; nm = len(secs.get('Masses', []))
+            for j in range(nm):
+                tok = lines[i0 + j].split('#')[0].split()
+                lines[i0 + j] = ' %s %.6f' % (tok[0], float(tok[1]) + 0.3)
+            t_off = '\n'.join(lines)
+            l1, e1 = call(Atoms.load_lmpdat, io.StringIO(t_off), atom_format=style, guess_atol=0.5)
+            l2, e2 = call(Atoms.load_lmpdat, io.StringIO(t_off), atom_format=style)
+            out['evals'] += 2; out['compared'] += 1
+            if not e2 and nm and [str(x) for x in l2.atom_type_elements] != [str(i + 1) for i in range(nm)]:
+                from mofun.atomic_masses import ATOMIC_MASSES
+                ms = [float(lines[i0 + j].split()[1]) for j in range(nm)]
+                if all(min(abs(m - float(v)) for v in ATOMIC_MASSES.values()) >= 0.1 for m in ms):
+                    bad('reload', 'history:tolerance', 'a file whose masses %r are 0.3 off every element was loaded with guess_atol=0.5 and then with the default tolerance: the second load gives elements %r instead of type numbers' % (ms, [str(x) for x in l2.atom_type_elements]))
     nk = sum(1 for ko in sc['ks'] if KOPT[ko][1])
     key = 'kinds=%d tables=%d %s %s' % (nk, sc['tables'], style, 'tilted' if sc['cell'] in (1, 2, 3, 4) else 'other')
     out['outcomes'][key] = 1
